@@ -62,6 +62,7 @@ class Ctx:
         self._mir_cache = {}
         self.only = None              # optional predicate (rule, key) -> bool: which guarded rule instances run
         self.rename = None            # optional rule-name rewrite, used when one property reuses another's rules
+        self.active = {prop}          # properties whose rules are being evaluated (guards mutual inclusion)
 
     # ---- facts access ----------------------------------------------------
     def crate(self, name="ruzstd", tag=None):
@@ -139,6 +140,53 @@ class Ctx:
             self.undecided(rule, "floor", "", "%s: matched %d instances, floor is %d (rule would pass vacuously)"
                            % (what, n, minimum))
 
+    def include(self, mod, prefix, select=None, floor=0):
+        """Evaluate another property's rules here and report the selected instances under this property's name
+        (`prefix`).  A property whose behaviour depends on a neighbour's structural clause (round trip on the match
+        finder's bookkeeping, decoder correctness on the output window, ...) names that dependency by including the
+        neighbour's rule instances, so that a change breaking it is reported by *this* check too.  Mutual inclusion is
+        cut: a property already being evaluated in this run is not entered again (its instances are reported once,
+        where it was entered).  Returns the kept observations, or None if skipped."""
+        name = mod.__name__.rsplit(".", 1)[-1].upper()
+        if name in self.active:
+            return None
+        self.active.add(name)
+        start = len(self.obs)
+        nn = len(self.notes)
+        try:
+            run_property(mod, self)
+        finally:
+            self.active.discard(name)
+        keep = []
+        for o in self.obs[start:]:
+            if not o.rule.startswith(name + "."):
+                continue
+            whole_group = o.status != "ok" and ("anchor missing" in (o.msg or "") or "idiom not recognised" in (o.msg or "") or o.key == "floor")
+            if select is not None and not select(o) and not whole_group:
+                continue
+            o.rule = prefix + "." + o.rule.split(".", 1)[1]
+            keep.append(o)
+        self.obs[start:] = keep
+        self.notes[nn:] = [n_ for n_ in self.notes[nn:] if "INFO latent" not in n_ and n_ not in self.notes[:nn]]
+        if len(keep) < floor:
+            self.undecided(prefix, "floor", "", "included %s rules: matched %d instances, floor is %d" % (name, len(keep), floor))
+        return keep
+
+    def entering(self, name):
+        """context manager for the older direct `cXX.run(ctx)` reuse: marks property `name` as being evaluated"""
+        ctx = self
+
+        class _E:
+            def __enter__(self_):
+                self_.added = name not in ctx.active
+                ctx.active.add(name)
+
+            def __exit__(self_, *a):
+                if self_.added:
+                    ctx.active.discard(name)
+                return False
+        return _E()
+
     def note(self, s):
         self.notes.append(s)
 
@@ -155,6 +203,24 @@ class Ctx:
             tb = traceback.extract_tb(sys.exc_info()[2])[-1]
             self.undecided(rule, key, "", "idiom not recognised by the extractor (%s: %s at %s:%d)"
                            % (type(e).__name__, e, os.path.basename(tb.filename), tb.lineno))
+
+
+def run_property(mod, ctx):
+    """a property's own rules, then the rule instances of neighbouring properties it depends on (module attribute
+    INCLUDES = [(module name, prefix, selector, floor)]; selector None = all instances, else a dict with `keys` /
+    `rules` prefixes of which one must match)"""
+    import importlib
+    mod.run(ctx)
+    for modname, prefix, sel, floor in getattr(mod, "INCLUDES", ()):
+        other = importlib.import_module("zsa.props." + modname)
+        if sel is None:
+            select = None
+        else:
+            def select(o, sel=sel):
+                return o.key.startswith(tuple(sel.get("keys", ()))) if sel.get("keys") and not sel.get("rules") else (
+                    o.rule.startswith(tuple(sel.get("rules", ()))) if sel.get("rules") and not sel.get("keys") else (
+                        o.key.startswith(tuple(sel.get("keys", ()))) or o.rule.startswith(tuple(sel.get("rules", ())))))
+        ctx.include(other, prefix, select=select, floor=floor)
 
 
 def load_known():
